@@ -24,6 +24,20 @@ git -C "$SC" diff > "$HERE/$NAME.diff"
 : > "$HERE/$NAME.result"
 for P in $PROPS; do
   ( cd "$ROOT" && PCFG_REPO="$SC" PCFG_OUT="$OUT" timeout 1500 ./check "$P" --tier quick 2>&1 | grep -E "VIOLATION|-> OK|-> " | cut -c1-600 >> "$HERE/$NAME.result" )
+  # what the translator tie itself says (the equality that broke / the construct that was refused)
+  /venv/bin/python - "$OUT/replays" "$P" >> "$HERE/$NAME.result" <<'PY'
+import glob, json, sys
+seen = []
+for f in sorted(glob.glob(sys.argv[1] + "/" + sys.argv[2] + "_*.json")):
+    try:
+        d = json.load(open(f))
+    except Exception:
+        continue
+    for b in d.get("broken", []):
+        if "translator-tie" in b and b not in seen:
+            seen.append(b)
+            print("  tie: %s" % " ".join(b.split())[:700])
+PY
 done
 git -C /repo worktree remove --force "$SC" >/dev/null 2>&1
 rm -rf "$SC" "$OUT"
